@@ -47,7 +47,7 @@ type registry struct {
 // cncSharedRegistryList: also run the cases in which the goroutines share a Maven registry list with spare capacity (three
 // registries added up front) or one goroutine adds a registry while the others query. On a tree where
 // datasource.MavenRegistryAPIClient does not guard its registry list these are data races (finding C16/maven-registry-list).
-const cncSharedRegistryList = false
+const cncSharedRegistryList = true
 
 var cncVersions = []string{"1.0.0", "1.1.0", "2.0.0"}
 
